@@ -45,7 +45,8 @@ def config(draw, reuse=None):
         if a in taken:
             continue
         taken.add(a)
-        aliases.append([a, draw(st.sampled_from(gnames))])
+        # an alias may point at a group or at an alias declared before it
+        aliases.append([a, draw(st.sampled_from(gnames + [x for x, t in aliases]))])
     order = draw(st.permutations(list(range(sum(len(g['labels']) for g in groups)))))
     return dict(groups=groups, aliases=aliases, order=list(order), crlf=draw(st.booleans()),
                 alias_typedef=bool(aliases) or draw(st.booleans()), masktype_rows=draw(st.booleans()))
@@ -60,7 +61,8 @@ def queries(draw, cfg):
     out = []
     targets = [g['name'] for g in cfg['groups']] + [a for a, t in cfg['aliases']]
     real = {g['name']: g for g in cfg['groups']}
-    real.update({a: real[t] for a, t in cfg['aliases']})
+    for a, t in cfg['aliases']:
+        real[a] = real[t]
     for _ in range(draw(st.integers(2, 6))):
         gname = draw(st.sampled_from(targets))
         g = real[gname]
@@ -108,7 +110,7 @@ def render(cfg):
     for i, g in enumerate(cfg['groups'] if cfg.get('masktype_rows', True) else []):
         rows.insert((7 * i) % (len(rows) + 1), 'masktype %s 64 "the %s group"' % (g['name'], g['name']))
     for j, (a, t) in enumerate(cfg['aliases']):
-        rows.insert((3 * j + 1) % (len(rows) + 1), 'maskalias %s %s "%s is a synonym for %s."' % (t, a, a, t))
+        rows.insert(min(3 * j + 1, len(rows)), 'maskalias %s %s "%s is a synonym for %s."' % (t, a, a, t))      # ascending positions: declaration order kept
     rows.insert(len(rows) // 2, '#------------------------------------------------------------------------------')
     nl = '\r\n' if cfg['crlf'] else '\n'
     return nl.join(lines + rows) + nl
@@ -187,7 +189,7 @@ def body(case):
             known_l = {l for l, b in g0['labels']}
             for grp in (g0['name'], g0['name'].lower(), bg):
                 gok = grp.upper() in real
-                for labels in (l0, l0.lower(), bl, [l0], [bl], [l0, bl], [bl, l0], [bl, bl + 'X', l0]):
+                for labels in (l0, l0.lower(), bl, [l0], [bl], [l0, bl], [bl, l0], [bl, bl + 'X', l0], (l0, bl), (l0,), np.array([bl, l0])):
                     lablist = [labels] if isinstance(labels, str) else list(labels)
                     which = [gok and (x.upper() in known_l) for x in lablist]
                     allok = all(which) and gok
